@@ -19,6 +19,74 @@ REQ_KEYS = [b"exec", b"shell", b"subsystem", b"pty-req", b"env", b"x11-req", b"a
 NEVER = set(REQ_KEYS[:8])
 
 
+MODEL_KINDS = {"x11": "x11 handler", "auth-agent@openssh.com": "agent handler", "forwarded-tcpip": "tcp handler"}
+
+
+def kinds_in_source():
+    """every string literal that Transport._parse_channel_open compares `kind` with (== or `in (...)`), read off the AST,
+    and for the literals tested before the client-mode refusal: whether the test also requires a handler
+    (`self._<x>_handler is not None`) in the same conjunction"""
+    import ast
+    import inspect
+    import textwrap
+
+    from paramiko.transport import Transport
+
+    tree = ast.parse(textwrap.dedent(inspect.getsource(Transport._parse_channel_open)))
+    literals = set()
+
+    def lits(cmp_):
+        out = []
+        if isinstance(cmp_, ast.Compare) and isinstance(cmp_.left, ast.Name) and cmp_.left.id == "kind":
+            for c in cmp_.comparators:
+                if isinstance(c, ast.Constant) and isinstance(c.value, str):
+                    out.append(c.value)
+                elif isinstance(c, (ast.Tuple, ast.List, ast.Set)):
+                    out += [e.value for e in c.elts if isinstance(e, ast.Constant) and isinstance(e.value, str)]
+        return out
+
+    for n in ast.walk(tree):
+        literals.update(lits(n))
+
+    def guarded(test):
+        """literals of `test` -> True iff every way to satisfy the test through that literal also needs a handler"""
+        res = {}
+        if isinstance(test, ast.BoolOp) and isinstance(test.op, ast.And):
+            has_handler = any(isinstance(v, ast.Compare) and isinstance(v.ops[0], ast.IsNot)
+                              and isinstance(v.left, ast.Attribute) and v.left.attr.endswith("_handler")
+                              for v in test.values)
+            for v in test.values:
+                for lit in lits(v):
+                    res[lit] = has_handler
+                if isinstance(v, ast.BoolOp):
+                    for lit, g in guarded(v).items():
+                        res[lit] = g or has_handler
+        elif isinstance(test, ast.BoolOp):      # Or: each alternative stands alone
+            for v in test.values:
+                for lit in lits(v):
+                    res[lit] = False
+                if isinstance(v, ast.BoolOp):
+                    res.update(guarded(v))
+        else:
+            for lit in lits(test):
+                res[lit] = False
+        return res
+
+    client_side = {}
+    func = tree.body[0]
+    for node in func.body:
+        if isinstance(node, ast.If):
+            cur = node
+            while isinstance(cur, ast.If):
+                t = cur.test
+                if isinstance(t, ast.UnaryOp) and isinstance(t.op, ast.Not):   # `elif not self.server_mode:` reached
+                    break
+                client_side.update(guarded(t))
+                cur = cur.orelse[0] if len(cur.orelse) == 1 else None
+            break
+    return sorted(literals), client_side
+
+
 def gen_history(rng, n):
     evs = []
     for _ in range(n):
@@ -30,7 +98,7 @@ def gen_history(rng, n):
         elif r < 0.45:
             evs.append("g:%s:%d" % (hx(rng.choice(GLOBAL_KINDS)), rng.random() < 0.7))
         elif r < 0.80:
-            evs.append("o:%s:%d" % (hx(rng.choices(OPEN_KINDS, [4, 4, 5, 2, 1, 1, 1])[0]), rng.randrange(0, 50)))
+            evs.append("o:%s:%d" % (hx(rng.choice(OPEN_KINDS)), rng.randrange(0, 50)))
         else:
             evs.append("r:%s:%d" % (hx(rng.choice(REQ_KEYS)), rng.random() < 0.8))
     return evs
@@ -131,14 +199,38 @@ def run(ctx):
     ctx.rule = ("histories of 1-10 events: client actions {request_x11 / get_pty answered by hand with SUCCESS, FAILURE, CLOSE or "
                 "EOF+CLOSE of the channel (several requests on one session channel), request_forward_agent, un-waited global requests (keepalive style; must go out with want_reply=False), "
                 "request_port_forward granted/denied with an explicit port or port 0 (server-allocated; cancelled under the returned port), cancel_port_forward} mixed with server-initiated GLOBAL_REQUEST (5 "
-                "kinds, with/without want-reply), CHANNEL_OPEN (7 kinds) and CHANNEL_REQUEST (12 types) - each kind occurs "
+                "kinds, with/without want-reply), CHANNEL_OPEN (every kind literal found in the source of _parse_channel_open, near-misses, and others) and CHANNEL_REQUEST (12 types) - each kind occurs "
                 "before and after enable / cancel; plus fixed histories per kind. non-trivial = the history contains a "
                 "server-initiated message after at least one client action")
     ctx.trust("scripted-server harness (pv/lib_clientrefuse.py)")
     ctx.assume("the application's handler callbacks (default: queue for accept()) are not modelled beyond 'accepted'")
+    # the alphabet of server-opened channel kinds comes from the source: every literal _parse_channel_open compares
+    # `kind` with, plus near-misses of each; a literal the model does not know, or one accepted without its own
+    # handler guard, breaks the tie
+    literals, client_side = kinds_in_source()
+    ctx.extra["channel_kinds_in_source"] = literals
+    ctx.extra["client_side_guards"] = client_side
+    for lit, g in sorted(client_side.items()):
+        if lit not in MODEL_KINDS:
+            ctx.broken.append({"kind": "generator", "what": "channel kind %r accepted in client mode is not in the model" % lit,
+                               "detail": "model kinds: %s" % sorted(MODEL_KINDS)})
+        if not g:
+            ctx.broken.append({"kind": "generator", "what": "channel kind %r is accepted without a handler guard" % lit,
+                               "detail": "every kind a client accepts must be gated by its own enabling handler"})
+    for k in MODEL_KINDS:
+        if k not in client_side:
+            ctx.broken.append({"kind": "generator", "what": "model kind %r not found in _parse_channel_open" % k, "detail": ""})
+    global OPEN_KINDS
+    extra = [x.encode() for x in literals]
+    near = [x.encode() + b"x" for x in literals] + [x.upper().encode() for x in literals if x.upper() != x]
+    OPEN_KINDS = sorted(set([b"x11", b"auth-agent@openssh.com", b"forwarded-tcpip"] * 1 + OPEN_KINDS + extra + near))
+    OPEN_KINDS = OPEN_KINDS + [b"x11", b"auth-agent@openssh.com", b"forwarded-tcpip"] * 4      # weight the gated kinds
     ctx.build()
     rng = ctx.rng
     hists = [
+        # every kind named in the source, with nothing enabled, then with everything enabled
+        ["o:%s:%d" % (hx(k.encode()), i) for i, k in enumerate(literals)] + ["agent", "x11:1", "fwd:1"] + [
+            "o:%s:%d" % (hx(k.encode()), 20 + i) for i, k in enumerate(literals)],
         ["o:%s:1" % hx(b"x11"), "x11:0", "o:%s:2" % hx(b"x11"), "x11:1", "o:%s:3" % hx(b"x11")],
         ["o:%s:1" % hx(b"auth-agent@openssh.com"), "agent", "o:%s:2" % hx(b"auth-agent@openssh.com"),
          "o:%s:3" % hx(b"session")],
